@@ -570,7 +570,7 @@ def rescale_tree_sequence(
         original_breaks, rescaled_breaks = mutational_timescale(
             nodes_time,
             mutations_span,
-            constraints,
+            fixed_nodes,
             ts.edges_parent,
             ts.edges_child,
             num_intervals,
